@@ -27,7 +27,10 @@ func verifLoadTape(path string) (string, []string) {
 		fmt.Println("VERIF-TAPE-ERROR", err)
 		os.Exit(43)
 	}
-	lines := strings.Split(strings.TrimSpace(string(b)), "\n")
+	lines := strings.Split(string(b), "\n")
+	for len(lines) < 2 {
+		lines = append(lines, "")
+	}
 	for _, l := range lines[2:] {
 		if l = strings.TrimSpace(l); l == "" {
 			continue
